@@ -117,8 +117,7 @@ class PostHarness:
                     posts.append({"label": lab, "inv": step - 0.5, "ret": step + 0.5, "side": side})
             elif op in ("popleft", "pop"):
                 size -= 1
-            elif op.startswith("rotate"):
-                overflow = True
+            # (a rotate is not taken as evidence of an overflow: whether the queue was full is decided by counting)
         takes = [(step, lab) for (step, now, tid, op, lab) in o["ops"] if op == "popleft"]
         # overflow regime: at some moment the posts already invoked and not yet taken reach the capacity
         # (tokens are put before the item, so the token queue may then be full) - displacement is allowed
